@@ -78,10 +78,13 @@ Definition get_bonding_capacity (T : table) (element : str) (charge : Z) : res Z
   | None => match assoc (lit "?") T with Some v => Ok v | None => Err KeyError end
   end.
 
-(* Atom.bonding_capacity *)
-Definition bonding_capacity (T : table) (a : atom) : res Z :=
-  do c <- get_bonding_capacity T (a_element a) (a_charge a);
+(* Atom.bonding_capacity; [capf] is whatever answers get_bonding_capacity(element, charge):
+   the table itself, or the memoised lookup of Config.v *)
+Definition capfun := str -> Z -> res Z.
+Definition bonding_capacity_c (capf : capfun) (a : atom) : res Z :=
+  do c <- capf (a_element a) (a_charge a);
   Ok (c - match a_hcount a with None => 0 | Some h => Z.of_N h end)%Z.
+Definition bonding_capacity (T : table) (a : atom) : res Z := bonding_capacity_c (get_bonding_capacity T) a.
 
 Definition invert_chirality (a : atom) : atom :=
   let flip := match a_chirality a with
@@ -218,15 +221,16 @@ Definition process_atom_nocache (symbol : str) : res (option (Z * option N * ato
   end.
 
 (* process_atom_symbol (the memo is transparent: see Config.v) *)
-Definition process_atom_symbol (T : table) (symbol : str)
+Definition process_atom_symbol_c (capf : capfun) (symbol : str)
   : res (option (Z * option N * atom * Z)) :=
   do o <- process_atom_nocache symbol;
   match o with
   | None => Ok None
   | Some (order, stereo, a) =>
-      do cap <- bonding_capacity T a;
+      do cap <- bonding_capacity_c capf a;
       if (cap <? 0)%Z then Ok None else Ok (Some (order, stereo, a, cap))
   end.
+Definition process_atom_symbol (T : table) := process_atom_symbol_c (get_bonding_capacity T).
 
 (* ---------- SMILES bracket atoms ---------- *)
 Definition is_letter (c : N) : bool := is_upper c || is_lower c.
